@@ -15,9 +15,8 @@ Readings fixed here (the property text is ambiguous at these points):
    longest staff of the previous measure ended.
  * round trips: every Note of the exported part is found again with the same onset and duration
    in quarters, step/alter/octave and staff (voices, ties, rests and signatures are not demanded).
- * supported subset = what the property's quantifier lists.  Ties of chord notes in kern are a
-   documented gap of the importer ("not handled yet"): generated only when the open finding
-   F-C19-kern-chord-ties is registered in known_findings.json (proposal: fixes/C19-22-known-finding.json).
+ * supported subset = what the property's quantifier lists.  Ties are joined note by note, also inside
+   chords (the former open finding F-C19-kern-chord-ties is repaired by fixes/C19-27 and always generated).
 """
 import io
 import json
@@ -27,7 +26,7 @@ import tempfile
 from fractions import Fraction as F
 
 import wire as W
-from core import Eval, load_known
+from core import Eval
 
 PROPERTY = "C19"
 DRIVER = "drv_c19"
@@ -64,7 +63,6 @@ LEVEL_TEXT = ("Lean theorems over all token lists about the denotational semanti
               "semantics by a differential run on generated kern/MEI documents and every fixture, with an independent "
               "Python oracle computed from the abstract score.")
 SEARCH_LIMIT = 1500
-KNOWN_CHORD_TIES = "F-C19-kern-chord-ties"
 
 STEPS = "CDEFGAB"
 REPO = os.environ.get("VERIF_REPO", "/repo")
@@ -1276,6 +1274,120 @@ def oracle_compare(exp_parts, infos, fails, check_sigs=True, mname=None):
 
 
 
+
+# ============================================================================ the writers as the model sees them
+def _xnote(n, S):
+    sd = n.symbolic_duration or {}
+    kind = 2 if isinstance(n, S.Rest) else (1 if isinstance(n, S.GraceNote) else 0)
+    sym = "-"
+    if "type" in sd:
+        tup = "-"
+        if "actual_notes" in sd and "normal_notes" in sd:
+            tup = "%d %d" % (sd["actual_notes"], sd["normal_notes"])
+        sym = "%s %d %s" % (W.s(sd["type"]), sd.get("dots", 0) or 0, tup)
+    if kind == 2:
+        step, alter, octv = "R", "-", 0
+    else:
+        step, alter, octv = n.step, ("-" if n.alter is None else "%d" % n.alter), n.octave
+    return "%d %d %d %s %s %s %d %d %d %d" % (
+        kind, n.voice or 0, n.staff or 0, sym, W.s(step), alter, octv,
+        1 if getattr(n, "tie_next", None) is not None else 0, 1 if getattr(n, "tie_prev", None) is not None else 0,
+        n.end.t - n.start.t)
+
+
+def xpart_tokens(part):
+    """the part as KernExporter iterates over it: time points, objects starting at each in iter_all order"""
+    import partitura.score as S
+
+    pts = []
+    for tp in part._points:
+        els = []
+        for el in part.iter_all(start=tp.t, end=tp.t + 1):
+            if isinstance(el, S.GenericNote):
+                els.append("N " + _xnote(el, S))
+            elif isinstance(el, S.Clef):
+                els.append("C %d %s %d" % (el.staff, W.s(el.sign), el.line))
+            elif isinstance(el, S.Measure):
+                els.append("M %d" % el.number)
+            elif isinstance(el, S.TimeSignature):
+                els.append("T %d %d" % (el.beats, el.beat_type))
+            elif isinstance(el, S.KeySignature):
+                els.append("K %d" % el.fifths)
+            else:
+                els.append("O")
+        pts.append("%d %d %s" % (tp.t, len(els), " ".join(els)))
+    return "%d %d %s" % (int(part._quarter_durations[0]), len(pts), " ".join(pts))
+
+
+def py_symvalue(sd):
+    """quarters of a symbolic duration (independent of the model)"""
+    base = {"maxima": F(32), "long": F(16), "breve": F(8), "whole": F(4), "half": F(2), "quarter": F(1), "eighth": F(1, 2),
+            "16th": F(1, 4), "32nd": F(1, 8), "64th": F(1, 16), "128th": F(1, 32), "256th": F(1, 64)}.get(sd.get("type"))
+    if base is None:
+        return None
+    v = base * (2 - F(1, 2 ** (sd.get("dots", 0) or 0)))
+    if "actual_notes" in sd and "normal_notes" in sd:
+        if not sd["actual_notes"] or not sd["normal_notes"]:
+            return None
+        v = v * sd["normal_notes"] / sd["actual_notes"]
+    return v
+
+
+def py_kern_exportable(part):
+    """the Exportable predicate of Model/KernWrite.lean, restated in plain Python on the real objects"""
+    import partitura.score as S
+
+    divs = int(part._quarter_durations[0])
+    if divs <= 0:
+        return False
+    allnotes = list(part.iter_all(S.GenericNote, include_subclasses=True))
+    if not allnotes:
+        return False
+    nexts = {(n.voice or 0, n.staff or 0): 0 for n in allnotes}
+    for tp in part._points:
+        els = list(part.iter_all(start=tp.t, end=tp.t + 1))
+        notes = [e for e in els if isinstance(e, S.GenericNote)]
+        for e in els:
+            if isinstance(e, S.Clef) and (e.sign or "").upper() not in ("G", "F", "C"):
+                return False
+        for n in notes:
+            if not isinstance(n, S.Rest):
+                if n.step not in tuple("CDEFGAB") or n.alter not in (None, 0, 1, -1, 2, -2):
+                    return False
+            if not isinstance(n, S.GraceNote):
+                v = py_symvalue(n.symbolic_duration or {})
+                if v is None or v != F(n.end.t - n.start.t, divs):
+                    return False
+            if nexts[(n.voice or 0, n.staff or 0)] != tp.t:
+                return False
+        seen = set()
+        for n in notes:
+            c = (n.voice or 0, n.staff or 0)
+            if not isinstance(n, S.GraceNote) and c not in seen:
+                seen.add(c)
+                nexts[c] = tp.t + (n.end.t - n.start.t)
+    return True
+
+
+def f_fact(x):
+    return W.f_tuple(W.f_rat(x[0]), W.f_rat(x[1]), x[2], x[3], W.f_int(x[4]), W.f_int(x[5]), W.f_int(x[6]))
+
+
+def part_facts(part):
+    """(onset, dur, kind, step, alter, oct, staff) of every Note of the part, in time-point / iteration order"""
+    import partitura.score as S
+
+    divs = _fr(part._quarter_durations[0])
+    res = []
+    for tp in part._points:
+        for n in part.iter_all(start=tp.t, end=tp.t + 1):
+            if isinstance(n, S.Note):
+                g = isinstance(n, S.GraceNote)
+                res.append((_fr(n.start.t) / divs, F(0) if g else (_fr(n.end.t) - _fr(n.start.t)) / divs,
+                            "g" if g else "n", n.step.upper(), n.alter or 0, n.octave, n.staff))
+    return res
+
+
 # ============================================================================ exporter round trips
 TYPE_OF_V = {-1: "long", 0: "breve", 1: "whole", 2: "half", 4: "quarter", 8: "eighth", 16: "16th", 32: "32nd",
              64: "64th", 128: "128th", 256: "256th"}
@@ -1296,12 +1408,14 @@ def asc_divs(asc):
     return need
 
 
-def build_part(asc, with_tuplets=True, with_rests=True):
+def build_part(asc, with_tuplets=True, with_rests=True, xopt=None):
     """an exportable partitura Part (public API only): every event has its symbolic duration, tuplets are
     Tuplet objects, silent measures of a voice are filled with rests; returns (part, [note facts])"""
     import partitura.score as S
 
-    divs = asc_divs(asc)
+    xopt = xopt or {}
+    xr = random.Random(xopt.get("seed", 0))
+    divs = asc_divs(asc) * xopt.get("divmul", 1)
     part = S.Part("P1", "generated", quarter_duration=divs)
     lens = measure_lengths(asc)
     nm = n_measures(asc)
@@ -1311,8 +1425,17 @@ def build_part(asc, with_tuplets=True, with_rests=True):
     for m in range(nm):
         if m > 0 and str(m) in asc.get("meterchg", {}):
             part.add(S.TimeSignature(*asc["meterchg"][str(m)]), int(t * divs))
-        part.add(S.Measure(number=m + 1), int(t * divs), int((t + lens[m]) * divs))
+        if m > 0 and str(m) in xopt.get("keychg", {}):
+            part.add(S.KeySignature(xopt["keychg"][str(m)], "major"), int(t * divs))
+        part.add(S.Measure(number=m + 1 + xopt.get("first_number", 0)), int(t * divs), int((t + lens[m]) * divs))
         t += lens[m]
+    pending_adds, pending_tuplets = [], []
+
+    def add_note(o, start, end):
+        pending_adds.append((o, start, end))
+
+    def add_tuplet(a, b, num, base):
+        pending_tuplets.append((a, b, num, base))
     facts = []
     nid = 0
     voice_no = 0
@@ -1341,19 +1464,19 @@ def build_part(asc, with_tuplets=True, with_rests=True):
                     if e["t"] in ("r", "s"):
                         nid += 1
                         o = S.Rest(id="r%d" % nid, voice=voice_no, staff=si + 1, symbolic_duration=sd)
-                        part.add(o, start, end)
+                        add_note(o, start, end)
                         objs.append(o)
                     else:
                         new_prev = []
                         for p in e["p"]:
                             nid += 1
                             if e["t"] == "g":
-                                o = S.GraceNote("grace", p[0], p[2], p[1] if p[1] else None, id="n%d" % nid, voice=voice_no,
+                                o = S.GraceNote(xr.choice(xopt.get("grace_types", ["grace"])), p[0], p[2], p[1] if p[1] else None, id="n%d" % nid, voice=voice_no,
                                                 staff=si + 1, symbolic_duration=sd)
                             else:
                                 o = S.Note(p[0], p[2], p[1] if p[1] else None, id="n%d" % nid, voice=voice_no, staff=si + 1,
                                            symbolic_duration=sd)
-                            part.add(o, start, end)
+                            add_note(o, start, end)
                             objs.append(o)
                             facts.append((pos, val, e["t"], p[0], p[1], p[2], si + 1))
                             if e["t"] == "n":
@@ -1371,15 +1494,25 @@ def build_part(asc, with_tuplets=True, with_rests=True):
                                 tup_open[2] = objs[0]
                             else:
                                 if tup_open:
-                                    part.add(S.Tuplet(tup_open[1], tup_open[2], tup_open[3][0], tup_open[3][1]), tup_open[1].start.t, tup_open[2].start.t)
+                                    add_tuplet(tup_open[1], tup_open[2], tup_open[3][0], tup_open[3][1])
                                 tup_open = [e["tup"][2], objs[0], objs[0], e["tup"]]
                         elif tup_open:
-                            part.add(S.Tuplet(tup_open[1], tup_open[2], tup_open[3][0], tup_open[3][1]), tup_open[1].start.t, tup_open[2].start.t)
+                            add_tuplet(tup_open[1], tup_open[2], tup_open[3][0], tup_open[3][1])
                             tup_open = None
                     pos += val
                 if tup_open:
-                    part.add(S.Tuplet(tup_open[1], tup_open[2], tup_open[3][0], tup_open[3][1]), tup_open[1].start.t, tup_open[2].start.t)
+                    add_tuplet(tup_open[1], tup_open[2], tup_open[3][0], tup_open[3][1])
                 t0 += lens[m]
+    # the order in which the notes enter the part decides the order in which the writers meet the notes of one
+    # time point: voice by voice (default), or any order
+    if xopt.get("shuffle"):
+        xr.shuffle(pending_adds)
+    if xopt.get("order"):
+        pending_adds = [pending_adds[i] for i in xopt["order"]]
+    for (o, start, end) in pending_adds:
+        part.add(o, start, end)
+    for (a, b, num, base) in pending_tuplets:
+        part.add(S.Tuplet(a, b, num, base), a.start.t, b.start.t)
     return part, facts
 
 
@@ -1401,7 +1534,7 @@ def eval_export(d):
     asc = d["asc"]
     fmt = d["k"][1:]
     ev = Eval()
-    part, facts = build_part(asc, with_rests=d.get("rests", True))
+    part, facts = build_part(asc, with_rests=d.get("rests", True), xopt=d.get("xopt"))
     tmp = tempfile.mkdtemp(prefix="c19x-")
     path = os.path.join(tmp, "out." + ("krn" if fmt == "kern" else "mei"))
     try:
@@ -1415,9 +1548,11 @@ def eval_export(d):
         except Exception as e:
             ev.oracle.append("export: save_%s raised %s: %s" % (fmt, type(e).__name__, str(e)[:200]))
             return ev
-        ev.info["text"] = open(path, encoding="utf-8", errors="replace").read()
+        text = open(path, encoding="utf-8", errors="replace").read()
+        ev.info["text"] = text
         try:
             score = partitura.load_score(path)
+            infos = extract_parts(score)
         except Exception as e:
             ev.oracle.append("reload: load_score raised %s on the exported file: %s" % (type(e).__name__, str(e)[:200]))
             return ev
@@ -1429,7 +1564,28 @@ def eval_export(d):
             extra = list((Counter(got) - Counter(facts)).elements())
             ev.oracle.append("roundtrip: %d of %d notes not found again (onset,dur,kind,step,alter,oct,staff), e.g. %s; instead %s" % (
                 len(missing), len(facts), [tuple(map(str, m)) for m in sorted(missing)[:3]], [tuple(map(str, m)) for m in sorted(extra)[:3]]))
-        ev.key = "x%s:%s" % (fmt, ev.info["text"]) if facts else None
+        ev.key = "x%s:%s" % (fmt, text) if facts else None
+        # ---- the writer model: same rows, the part is Exportable, the document denotes what the loader loads
+        if fmt == "kern":
+            xt = xpart_tokens(part)       # after save_kern: measures added, rests filled
+            rows = [ln.split("\t") for ln in text.split("\n") if ln != "" and not ln.startswith("!!!")]
+            pf = part_facts(part)
+            pool = list(got)
+            miss = []
+            for f in pf:
+                if f in pool:
+                    pool.remove(f)
+                else:
+                    miss.append(f)
+            ev.requests += ["wkern rows " + xt, "wkern exportable " + xt, "wkern facts " + xt, "wkern missing " + xt]
+            ev.impl += [W.f_list(lambda r: W.f_list(W.s, r), rows), "1" if py_kern_exportable(part) else "0",
+                        W.f_list(f_fact, pf), W.f_list(f_fact, miss)]
+            if not py_kern_exportable(part) and not d.get("nonexp"):
+                ev.oracle.append("generator: the part built for the kern writer is not exportable (harness error)")
+            tx = impl_texts(infos, "kern")
+            for what in ("notes", "joined", "meas", "sigs"):
+                ev.requests.append(kern_request(what, text))
+                ev.impl.append(tx[what])
     finally:
         try:
             if os.path.exists(path):
@@ -1556,7 +1712,7 @@ def rand_layout(rng):
 
 def cases(rng, tier):
     n = {"quick": 160, "thorough": 4000, "search": 1200}.get(tier, 160)
-    chord_ties = any(k.get("key") == KNOWN_CHORD_TIES and k.get("status") == "open" for k in load_known())
+    chord_ties = True       # repaired by fixes/C19-27 (was the open finding F-C19-kern-chord-ties)
     yield {"k": "tables"}
     yield {"k": "dispatch"}
     for fmt, pth in fixture_paths():
@@ -1580,11 +1736,15 @@ def cases(rng, tier):
         if i % 2 == 0:
             seed = rng.getrandbits(48)
             r = random.Random(seed)
-            asc = gen_asc(r, exotic=False, max_measures=3, chord_ties=True)
             kind = "xkern" if i % 4 == 0 else "xmei"
+            asc = gen_asc(r, exotic=False, max_measures=6 if (kind == "xkern" and r.random() < 0.25) else 3, chord_ties=True)
             # exportable: a kern spine must be rhythmically complete, so every voice sounds or rests in every
             # measure; for MEI only the first voice of each staff has to fill its measures
-            yield {"k": kind, "asc": asc, "seed": seed, "rests": True if kind == "xkern" else r.random() < 0.6}
+            xopt = {"seed": r.getrandbits(30), "shuffle": r.random() < 0.4,
+                    "grace_types": r.choice([["grace"], ["grace", "acciaccatura", "appoggiatura"]]),
+                    "keychg": {str(m): r.randint(-7, 7) for m in range(1, n_measures(asc)) if r.random() < 0.3},
+                    "first_number": r.choice([0, 0, 0, 9]), "divmul": r.choice([1, 1, 1, 2, 3])}
+            yield {"k": kind, "asc": asc, "seed": seed, "rests": True if kind == "xkern" else r.random() < 0.6, "xopt": xopt}
 
 
 def evaluate(d):
@@ -1691,13 +1851,6 @@ def finding_key(d, f):
     if d["k"] == "kern" and clause == "ties" and has_tied_chord(d):
         return "kern:ties:chord"
     return d["k"] + ":" + clause
-
-
-def mismatch_known(d, m, known):
-    """a model/implementation difference on a kern document with tied chords is the open finding"""
-    return (d["k"] == "kern" and has_tied_chord(d)
-            and any(k.get("key") == KNOWN_CHORD_TIES for k in known)
-            and m[2].startswith(("kern notes", "kern joined")))
 
 
 def shrink(d):
